@@ -131,10 +131,19 @@ def run(tier, seed):
     run_r("C04", tier, seed, invalid_scenarios(), [acc_invalid_must_abort], 2 if tier == "quick" else 3, on_exc_invalid,
           ["ctor_rejected", "ctor_accepted", "acceptances_checked", "invalid_program_rejected_resubmit", "invalid_program_rejected_spoof",
            "invalid_program_rejected_cancel_other", "invalid_program_rejected_twice_in_batch"], RULE, res=res, label="invalid_agent_programs")
+    # whole runs: the accounting identity on every order of every execution of all Engine-R scenario families (orders
+    # rewritten by events, high-frequency agents, halts, sessions without execution)
+    from ._r import run_whole_runs
+    from ..acceptors_r import acc_C04
+    run_whole_runs(res, "C04", tier, seed, [acc_C04], RULE)
     return res
 
 
 def replay(payload):
+    if payload.get("engine") == "R" and payload.get("scenario") != "invalid_programs":
+        from ._r import replay_whole_runs
+        from ..acceptors_r import acc_C04
+        return replay_whole_runs(payload, [acc_C04])
     if payload.get("engine") == "R":
         from ._r import replay_r
         return replay_r(invalid_scenarios(), [acc_invalid_must_abort], on_exc_invalid, payload)
